@@ -24,14 +24,14 @@ RULE = ('cells = (order 1|2, biort family incl. band-pass, q-shift, magbias in {
 ASSUMPTIONS = ['float64', 'torch native autograd trusted for plain torch code', 'finite differences: h = 1e-4*min(scale, bias)']
 TIMEOUT = {'quick': 900, 'thorough': 3300}
 WORKER_BUDGET = {'quick': 600, 'thorough': 2700}
-MIN_HELD = {'quick': 200, 'thorough': 2000}
+MIN_HELD = {'quick': 200, 'thorough': 1000}
 SIDES = [4, 5, 7, 8, 9, 10, 12, 13, 16, 20, 24]
 
 
 def cells(tier, seed):
     rnd = core.rng_for(seed, PROP, tier)
     out = []
-    n = 200 if tier == 'quick' else 2500
+    n = 200 if tier == 'quick' else 8000
     for i in range(n):
         order = 1 if i % 2 == 0 else 2
         b = rnd.choice(c08.BIORTS)
